@@ -35,7 +35,16 @@ ASSUMPTIONS = [
 def uni_history():
     data = st.one_of(c03.data_strategy(300), c03.data_strategy(300),
                      st.fixed_dictionaries({'shape': st.just('constant'), 'value': st.floats(-100, 100), 'n': st.integers(2, 60)}))
-    return st.fixed_dictionaries({'kind': st.just('univariate'), 'model': c03.model_strategy(), 'fits': st.lists(data, min_size=2, max_size=4)})
+    const = st.fixed_dictionaries({'shape': st.just('constant'), 'value': st.floats(-100, 100), 'n': st.integers(2, 60)})
+    plain = st.sampled_from(['BetaUnivariate', 'GammaUnivariate', 'GaussianUnivariate', 'UniformUnivariate', 'StudentTUnivariate', 'LogLaplace',
+                             'TruncatedGaussian', 'GaussianKDE', 'Univariate']).map(lambda c: {'cls': c, 'opts': {}})
+    return st.one_of(
+        st.fixed_dictionaries({'kind': st.just('univariate'), 'model': c03.model_strategy(), 'fits': st.lists(data, min_size=2, max_size=4)}),
+        st.fixed_dictionaries({'kind': st.just('univariate'), 'model': c03.model_strategy(), 'fits': st.lists(data, min_size=2, max_size=4)}),
+        # every family (default options, and the selecting wrapper) with a constant sample somewhere in its history
+        st.fixed_dictionaries({'kind': st.just('univariate'), 'model': plain,
+                               'fits': st.tuples(data, const, data).map(list)}),
+        st.fixed_dictionaries({'kind': st.just('univariate'), 'model': plain, 'fits': st.tuples(const, const).map(list)}))
 
 
 def biv_history():
@@ -141,6 +150,18 @@ def oracle_history(case):
         require(k1 == 'ok', 'fit #%d raised %s: %s on a model that had been fitted before, while a fresh model fits the same data'
                 % (step + 1, type(e1).__name__, str(e1)[:200]), tag='refit-raises', detail={'step': step})
         probes = probes_for(h, data, case['seed'])
+        if h['kind'] == 'univariate' and len(np.unique(data)) == 1:
+            # a third model of the same configuration is fitted on ANOTHER constant now; the two models above still
+            # describe the point mass at their own constant (parameters included: to_dict -> from_dict)
+            from copulas.univariate import Univariate
+
+            byst = new_model(h, datas[0])
+            call(byst.fit, np.full(5, float(data[0]) + 1.0), allow=(Exception,))
+            back = value(Univariate.from_dict, value(model.to_dict, what='to_dict'), what='Univariate.from_dict')
+            smp = np.asarray(value(back.sample, 3, what='sample'), dtype=float)
+            require(np.all(smp == float(data[0])), '%s fitted on the constant %r: after another model was fitted on the constant %r, its to_dict() '
+                    'describes the point mass at %r' % (c14.describe({'kind': 'univariate', 'model': h.get('model')}), float(data[0]), float(data[0]) + 1.0,
+                                                        smp.tolist()), tag='shared-state', detail={'step': step})
         a = O.observe(model, probes, seed=case['seed'] % 1000)
         b = O.observe(fresh, probes, seed=case['seed'] % 1000)
         d = O.first_difference(a, b)
